@@ -359,6 +359,10 @@ def run_calls(calls, env, fn_attrs=None, cross_check=True):
             args = bind_literals(None, [_operand(env, o) for o in c["args"]])
             if len(args) != len(spec["params"]) or any(a is None for a in args):
                 raise ReplayError("function arity")
+            for pname, a in zip(spec["params"], args):
+                t = spec.get("param_types", {}).get(pname)
+                if t is not None and (a.dtype != np.dtype(t[0]) or list(a.shape) != list(t[1])):
+                    raise ReplayError("argument does not have the declared type of the formal")
             fa = {name: d["default"] for name, d in spec["attrs"].items()}
             for name, v in c["attrs"].items():
                 if name not in fa:
